@@ -53,6 +53,7 @@ func c06RunWL(c c06WL) error {
 	if err != nil {
 		return &ev.Skip{Why: "empty list"}
 	}
+	m = declinedSep(w.Sep, m)
 	capL := ev.Pick(20000, 200000)
 	if _, ok := treeSize(len(kept), w.Length, len(m.Values), w.Scheme, w.Sep.Kind != "const", capL); !ok {
 		return &ev.Skip{Why: "tree too large"}
